@@ -175,6 +175,71 @@ def check_scope_mirroring(ctx, prog, tag, rule, ce, me):
     return n
 
 
+
+LOOPSTATE = "minijinja::vm::loop_object::LoopState"
+LOAD = "minijinja::vm::context::Context::load"
+
+
+def _projects(x, name, of):
+    if isinstance(x, dict):
+        if x.get("n") == name and x.get("of") == of:
+            return True
+        return any(_projects(v, name, of) for v in x.values())
+    if isinstance(x, list):
+        return any(_projects(v, name, of) for v in x)
+    return False
+
+
+def check_loop_variable_resolution(ctx, prog, tag):
+    """W8 (after seed C18-7): the tracker binds `loop` for the body of every `for` - and for the filter of a filtered
+    `for` it leaves it to the *enclosing* loop (the filter pre-pass is a loop without a loop variable).  The engine
+    agrees only if the name lookup asks each frame in turn: a frame whose loop has no loop variable is passed over and
+    the walk goes on outwards.  So wherever `Context::load` hands out a loop object, it is inside the walk over the
+    frames, the loop state is the one of the frame the walk is at, and `with_loop_var` of that state was tested."""
+    if not prog.has_fn(LOAD):
+        return 0
+    from .. import inline
+    f0 = prog.fn(LOAD)
+    f = inline.view(prog, f0, keep=("next", "rev", "iter", "get", "clone", "from_dyn_object", "get_global", "current_loop"))
+    loops = cfg.natural_loops(f)
+    walks = []
+    for h, body in loops:
+        for c in f.calls():
+            if c.bb in body and c.name.endswith("::next") and c.args:
+                if any("stack" in o.proj for o in flow.origins(f, c.args[0], through_calls=lambda k: 0 if k.args else None)):
+                    walks.append((h, body, c))
+    n = 0
+    for bb, i, st in f.all_stmts():
+        if st["k"] != "assign" or not _projects(st["rv"], "object", LOOPSTATE):
+            continue
+        n += 1
+        # the site usually *leaves* the walk (`return Some(..)`): it belongs to the walk when the step of the walk dominates it
+        inside = [(h, body, c) for (h, body, c) in walks if bb in body or cfg.dominates(f, c.bb, bb)]
+        from_walk = False
+        tested = False
+        base = st["rv"].get("place") or op_place(st["rv"].get("op", {})) or {}
+        os_ = flow.origins(f, {"cp": {"l": base.get("l", 0)}}) if base else []
+        for (h, body, c) in inside:
+            if any(o.kind == "call" and o.call.bb == c.bb for o in os_):
+                from_walk = True
+        for (sb, taken) in flow.guards(f, bb):
+            cd = flow.cond_of(f, sb)
+            if cd.kind == "local" and cd.place is not None:
+                names = flow._proj_names(cd.place)
+                src = flow.origins(f, {"cp": cd.place})
+                if ("with_loop_var" in names or any("with_loop_var" in o.proj for o in src)) and flow.bool_true_labels(taken) is not cd.neg:
+                    tested = True
+        ok = bool(inside) and from_walk and tested
+        ctx.ob("C18.W8.loop-variable-is-resolved-frame-by-frame", "%sload#%d" % (tag, n), ok,
+               "Context::load hands out a loop object %s: a `loop` inside the filter of a filtered `for` (whose pre-pass "
+               "frame has no loop variable) no longer reaches the enclosing loop and is looked up in the render context, "
+               "while undeclared_variables() treats it as bound" % (
+                   "outside the walk over the frames" if not inside else
+                   ("of a loop state that is not the walked frame's" if not from_walk else "without testing with_loop_var")),
+               f.where(bb))
+    return n
+
+
 def run(ctx):
     ctx.explain("C18: sibling cross-check by labelled events: every call of an evaluating function in the code "
                 "generator and of a visiting function in the tracker is labelled with (AST node type, payload field "
@@ -262,6 +327,9 @@ def run(ctx):
                        "although undeclared_variables() treats it as assigned", f.where(h))
         if prog.has_fn(G + "compile_macro_expression"):
             ctx.floor("C18.W7 loops emitting Enclose" + tag, n7, 1)
+        # ---- W8
+        n8 = check_loop_variable_resolution(ctx, prog, tag)
+        ctx.floor("C18.W8 places where the name lookup hands out a loop object" + tag, n8, 1)
         # ---- W6
         n6 = check_scope_mirroring(ctx, prog, tag, "C18.W6.tracker-scope-ends-where-the-engine's-frame-ends", ce, me)
         ctx.floor("C18.W6 frame ends between two evaluated parts of a node" + tag, n6, 1)
